@@ -273,6 +273,9 @@ int main(int argc, char **argv) {
         if (cs.engine == "sf") run_case(cs);
         std::printf("END\n");
         std::fflush(stdout);
+        // LSan keeps reporting an already reported leak in later checks of the same process: the leaking case is
+        // complete, continue the remaining cases in a fresh process so that the report is attributed to it alone
+        if (g_leaks) std::_Exit(42);
     }
     if (g_leaks) std::_Exit(0);  // already reported per case; skip the at-exit leak report
     return 0;
